@@ -73,9 +73,16 @@ func UnlinkFileAt(dir *os.File, filename string) error {
 	return unix.Unlinkat(int(dir.Fd()), filename, 0)
 }
 
+// TempFileSuffix is appended to the name of a file while WriteFileAt is writing it
+const TempFileSuffix = ".tmp"
+
 // WriteFileAt writes to a new file in given directory
+//
+// The data is written under a temporary name (filename + TempFileSuffix) and renamed at the end, so that the file
+// never exists under its final name with partial contents, even if the process is killed in the middle.
 func WriteFileAt(dir *os.File, filename string, data []byte, perm os.FileMode) error {
-	fd, oerr := unix.Openat(int(dir.Fd()), filename, unix.O_WRONLY|unix.O_CREAT|unix.O_TRUNC, uint32(perm))
+	tempname := filename + TempFileSuffix
+	fd, oerr := unix.Openat(int(dir.Fd()), tempname, unix.O_WRONLY|unix.O_CREAT|unix.O_TRUNC, uint32(perm))
 	if oerr != nil {
 		return oerr
 	}
@@ -102,9 +109,12 @@ func WriteFileAt(dir *os.File, filename string, data []byte, perm os.FileMode) e
 		werr = cerr
 	}
 	verifKillPoint("after-close", filename)
+	if werr == nil {
+		werr = unix.Renameat(int(dir.Fd()), tempname, int(dir.Fd()), filename)
+	}
 	if werr != nil {
-		// don't leave an incomplete file behind: it would be taken for a valid one later
-		_ = unix.Unlinkat(int(dir.Fd()), filename, 0)
+		// don't leave an incomplete file behind
+		_ = unix.Unlinkat(int(dir.Fd()), tempname, 0)
 	}
 	return werr
 }
